@@ -52,7 +52,8 @@ def gen_np(rng, kind, n_arms, d):
     if kind == "knn":
         return {"k": "knn", "kk": rng.choice([1, 2, 3]), "metric": rng.choice(["cityblock", "chebyshev", "sqeuclidean", "euclidean"])}
     if kind == "lsh":
-        return {"k": "lsh", "ndim": rng.choice([1, 2, 3, 4]), "ntab": rng.choice([1, 2, 3]), "probs": None}
+        # more than 8 hyper-planes per table now and then (hash codes beyond one byte)
+        return {"k": "lsh", "ndim": rng.choice([1, 2, 3, 4, 4, 9, 12]), "ntab": rng.choice([1, 2, 3]), "probs": None}
     if kind == "clusters":
         return {"k": "clusters", "n": rng.choice([2, 2, 3]), "mini": rng.random() < 0.25}
     if kind == "tree":
@@ -288,7 +289,10 @@ class Gen:
         elif cls == "ctx_superfluous":
             op = {"op": kind, "d": d, "r": r, "c": [[0.0] for _ in d]}
         elif cls == "width":
-            w = rng.choice([x for x in (2, 3, 4) if x != self.d])
+            # one column only where the rejection is certain (stored history cannot be stacked with it); a linear
+            # model would broadcast a single column silently (DESIGN section 14), which is no rejected call
+            ws = (1, 1, 2, 3, 4) if npk in ("radius", "knn", "lsh") else (2, 3, 4)
+            w = rng.choice([x for x in ws if x != self.d])
             op = {"op": "pfit", "d": d, "r": r, "c": [[float(rng.randint(0, 4)) for _ in range(w)] for _ in d]}
         elif cls == "few_rows":
             n = self.cfg["np"]["n"] - 1
@@ -385,9 +389,37 @@ class Gen:
         return {"cfg": self.cfg, "ops": self.ops}
 
 
+def warm_readd_scenario(rng, g):
+    """train two arms, warm start (a cold arm stays cold), remove a *trained* arm and add it again (now untrained),
+    warm start again with a cold arm sitting exactly on the re-added arm: the source must be a trained arm"""
+    if len(g.arms) < 3:
+        g.arms = (g.arms + g.spare)[:3]
+        g.cfg["arms"] = list(g.arms)
+    A, B, C = g.arms[0], g.arms[1], g.arms[2]
+    rest = g.arms[3:]
+    n = rng.choice([4, 6, 9])
+    d = [rng.choice([A, B]) for _ in range(n - 2)] + [A, B]
+    r = [gen_reward(rng, g.lpk, g.binz) for _ in d]
+    if g.lpk != "thompson":
+        r = [x + (2 if a == B else 0) for a, x in zip(d, r)]      # the two trained arms differ
+    c = [gen_row(rng, g.d) for _ in d] if g.contextual else None
+    q = {"op": "pexp", "c": [gen_row(rng, g.d)] if g.contextual else None}
+    far = [[x, [-1.0, -2.0 - i]] for i, x in enumerate(rest)]           # cosine distances: directions matter
+    feats1 = [[A, [1.0, 0.0]], [B, [0.0, 1.0]], [C, [-1.0, -1.0]]] + far
+    feats2 = [[A, [3.0, 4.0]], [B, [4.0, 3.0]], [C, [3.0, 4.0]]] + far
+    ops = [{"op": "fit", "d": d, "r": r, "c": c}, {"op": "warm", "feats": feats1, "q": 0.0}, dict(q),
+           {"op": "rem", "arm": A}, {"op": "add", "arm": A, "binz": None},
+           {"op": "warm", "feats": [feats2[1], feats2[2]] + far + [feats2[0]], "q": 1.0}, dict(q), {"op": "pred", "c": q["c"]}]
+    g.arms = [B, C] + rest + [A]
+    return {"cfg": g.cfg, "ops": ops}
+
+
 def gen_scenario(seed, index, profile):
     rng = random.Random("%s/%s/%s" % (seed, profile.get("name", ""), index))
-    return Gen(rng, profile).build()
+    g = Gen(rng, profile)
+    if profile.get("warm_readd") and index % 12 == 5 and g.npk is None and g.lpk in WARM_OK and len(g.arms + g.spare) >= 3:
+        return warm_readd_scenario(rng, g)
+    return g.build()
 
 
 def skeleton(scn):
